@@ -57,6 +57,38 @@ def case_key(case):
     return hashlib.sha256(json.dumps(c, sort_keys=True).encode()).digest()[:12]
 
 
+_VERIF_DIR = os.path.dirname(os.path.dirname(os.path.abspath(__file__)))
+_USER_CODE = (os.path.join(_VERIF_DIR, 'sim', 'catalogue.py'),
+              os.path.join(_VERIF_DIR, 'sim', 'devices.py'))
+
+
+def not_a_harness_bug(ex):
+    """Checks call this before they write a case off because the code under
+    test raised ("inapplicable", "trivial"): an exception whose innermost
+    frame is harness code - a NameError or TypeError of the check itself -
+    must stop the run as a harness error instead of quietly turning cases
+    trivial.  (sim/catalogue.py holds the user callbacks handed to petl and
+    sim/devices.py the simulated sources: failures raised there are the
+    application's, not the harness's.)"""
+    tb = ex.__traceback__
+    last = None
+    while tb is not None:
+        last = tb
+        tb = tb.tb_next
+    if last is None:
+        return ex
+    raw = last.tb_frame.f_code.co_filename
+    fn = os.path.abspath(raw)
+    if not raw.startswith('<') and fn.startswith(_VERIF_DIR + os.sep) and fn not in _USER_CODE \
+            and isinstance(ex, (NameError, TypeError, AttributeError,
+                                KeyError, IndexError, UnboundLocalError,
+                                AssertionError)):
+        raise RuntimeError('harness bug in %s line %d: %s: %s'
+                           % (fn, last.tb_lineno, type(ex).__name__, ex)) \
+            from ex
+    return ex
+
+
 class CaseTimeout(BaseException):
     """Not an Exception: the `except Exception` handlers of the checks (and
     of petl) must not take a watchdog for a failure of the code under test."""
